@@ -607,7 +607,188 @@ def check_real(ctx, cases, results):
             finding(ctx, "grab-interpolant-at-nodes", "returned interp1d does not reproduce its nodes", rep)
 
 
+# ----------------------------------------------------------------------------- 4b. call histories on one GHE object
+HISTORY_MUTATIONS = ["replace-gfunction", "compute_g_functions", "rb-table", "bhe-radius", "short-time-response", "none"]
+
+
+def gen_history_case(rng, k):
+    mut = HISTORY_MUTATIONS[k % len(HISTORY_MUTATIONS)]
+    H = float(rng.choice([40, 60, 80, 100, 120, 150, 200]))
+    lo = round(H * rng.uniform(0.4, 0.7), 1)
+    pos = rng.choice(["max", "avg"])
+    hi = H if pos == "max" else round(2 * H - lo, 1)       # H is max_height or the average: stored after compute_g_functions
+    return {"mutation": mut, "H": H, "min_h": lo, "max_h": hi, "alpha": rng.uniform(0.4e-6, 1.6e-6), "k": round(rng.uniform(1.2, 3.0), 2),
+            "D": rng.choice([0.0, 1.0, 2.0, 4.0]), "dia": rng.choice([0.14, 0.15]),
+            "coords": rng.choice([[(0.0, 0.0)], [(0.0, 0.0), (5.0, 0.0)], [(0.0, 0.0), (5.0, 0.0), (0.0, 5.0), (5.0, 5.0)]]),
+            "first_boundary": rng.choice(["UHTR", "UHTR", "UBWT"]), "grabs_before": rng.choice([1, 1, 2]), "factor": rng.choice([0.8, 1.25, 1.5])}
+
+
+def _grab_record(ghe, boh):
+    with warnings.catch_warnings():
+        warnings.simplefilter("ignore")
+        g, gb = ghe.grab_g_function(boh)
+    return {"gx": [float(v) for v in g.x], "gy": [float(v) for v in g.y], "bx": [float(v) for v in gb.x], "by": [float(v) for v in gb.y]}
+
+
+def history_worker(case):
+    """grab -> change one ingredient -> grab again at the SAME B/H, all on one object; plus a fresh object built
+    directly in the final state (only where that is the same physical object: g-function replaced)."""
+    from ghedesigner.borehole import GHEBorehole
+    from ghedesigner.gfunction import GFunction, calc_g_func_for_multiple_lengths
+    from ghedesigner.ground_heat_exchangers import GHE
+    from ghedesigner.simulation import SimulationParameters
+    from ghedesigner.utilities import eskilson_log_times
+
+    phys = ghelib.default_physics()
+    phys["soil"] = (case["k"], case["k"] / case["alpha"], 15.0)
+    phys["borehole"] = (case["H"], case["D"], case["dia"])
+    fluid, pipe, grout, soil, borehole, bhe_type = ghelib.media(phys, "SINGLEUTUBE")
+    sim = SimulationParameters(1, 12, 35.0, 5.0, case["max_h"], case["min_h"])
+    coords = [tuple(p) for p in case["coords"]]
+    n = len(coords)
+    m_bh = phys["flow"] / 1000.0 * fluid.rho
+
+    def new_ghe(gfun):
+        return GHE(phys["flow"] * n, 5.0, bhe_type, fluid, GHEBorehole(case["H"], case["D"], case["dia"] / 2.0, x=0.0, y=0.0), pipe, grout, soil,
+                   gfun, sim, [0.0] * 8760)
+
+    try:
+        with ghelib.quiet(), warnings.catch_warnings():
+            warnings.simplefilter("ignore")
+            g0 = calc_g_func_for_multiple_lengths(5.0, [case["H"]], borehole.r_b, borehole.D, m_bh, bhe_type, eskilson_log_times(), coords,
+                                                  fluid, pipe, grout, soil, boundary=case["first_boundary"])
+            ghe = new_ghe(g0)
+            boh = ghe.B_spacing / float(ghe.bhe.b.H)
+            first = None
+            for _ in range(case["grabs_before"]):
+                first = _grab_record(ghe, boh)
+            mut = case["mutation"]
+            fresh = None
+            if mut == "replace-gfunction":
+                old = ghe.gFunction
+                ghe.gFunction = GFunction(b=old.B, d=old.d, r_b_values=dict(old.r_b_values),
+                                          g_lts={h: [v * case["factor"] + 0.3 for v in g] for h, g in old.g_lts.items()},
+                                          log_time=list(old.log_time), bore_locations=list(old.bore_locations))
+            elif mut == "compute_g_functions":
+                ghe.compute_g_functions()
+            elif mut == "rb-table":
+                old = ghe.gFunction
+                ghe.gFunction = GFunction(b=old.B, d=old.d, r_b_values={h: rb * case["factor"] for h, rb in old.r_b_values.items()},
+                                          g_lts={h: list(g) for h, g in old.g_lts.items()}, log_time=list(old.log_time),
+                                          bore_locations=list(old.bore_locations))
+            elif mut == "bhe-radius":
+                ghe.bhe.b.r_b = ghe.bhe.b.r_b * case["factor"]
+            elif mut == "short-time-response":
+                rn = ghe.radial_numerical
+                rn.g = rn.g * case["factor"] + 0.05
+                rn.g_bhw = rn.g_bhw * case["factor"]
+            second = _grab_record(ghe, boh)
+            if mut in ("replace-gfunction", "compute_g_functions", "rb-table"):
+                fresh = _grab_record(new_ghe(ghe.gFunction), boh)
+            gf = ghe.gFunction
+            gf.interpolation_table = {}
+            gi, rbv, _, heq = gf.g_function_interpolation(boh)
+    except Exception as e:  # noqa: BLE001
+        return {"error": f"{type(e).__name__}: {e}"}
+    rn = ghe.radial_numerical
+    return {"first": first, "second": second, "fresh": fresh, "boh": float(boh), "rb_star": float(ghe.bhe.b.r_b),
+            "B": float(gf.B), "d": float(gf.d), "log_time": [float(v) for v in gf.log_time],
+            "curves": [[float(h), float(gf.r_b_values[h]), [float(v) for v in gf.g_lts[h]]] for h in gf.g_lts],
+            "sts": [float(v) for v in rn.lntts.tolist()], "g_sts": [float(v) for v in rn.g.tolist()], "gb_sts": [float(v) for v in rn.g_bhw.tolist()],
+            "rbv": float(rbv), "heq": float(heq)}
+
+
+def check_history(ctx, cases, results):
+    lines, idx = [], []
+    for i, r in enumerate(results):
+        if "error" in r:
+            continue
+        lval = math.log(r["rb_star"] / r["rbv"])
+        lines.append(f"gj_grab {core.rs(r['B'])} {core.rs(r['d'])} {L(r['log_time'])} {curves_wire(r['curves'])} "
+                     f"{core.rs(boh_for_model(r['B'], r['boh']))} none {core.rs(r['rb_star'])} {core.rs(lval)} "
+                     f"{L(r['sts'])} {L(r['g_sts'])} {L(r['gb_sts'])}")
+        idx.append(i)
+    out = ctx.driver(lines) if lines else []
+    mout = dict(zip(idx, out)) if out is not None else {}
+    for i, (c, r) in enumerate(zip(cases, results)):
+        mut = c["mutation"]
+        if "error" in r:
+            ctx.count("history_error")
+            ctx.case(("history-error", i), False, None)
+            note_broken(ctx, "history-run", {"case": c, "error": r["error"]})
+            continue
+        sec = r["second"]
+        changed = r["first"] != sec
+        ctx.count(f"history_mutation:{mut}")
+        ctx.count("history_second_differs_from_first:" + ("yes" if changed else "no"))
+        ctx.case(("history", mut, c["H"], c["min_h"], c["max_h"], len(c["coords"]), c["first_boundary"], c["grabs_before"], c["factor"]), True,
+                 {"history": ["grab(B/H)"] * c["grabs_before"] + [mut, "grab(B/H)"], "H": c["H"], "second_differs": changed} if i < 2 else None)
+        rep = {"function": "GHE.grab_g_function (call history on one object)", "history_case": c,
+               "history": ["build with one stored height, boundary " + c["first_boundary"]] + ["grab_g_function(B/H)"] * c["grabs_before"]
+               + [mut, "grab_g_function(B/H) at the same B/H"]}
+        # ---- predicate: the second curve is made of the ingredients the object holds NOW (oracle: list
+        #      comprehension over the present short-time table, present stored curve at H, decimal log)
+        lts = r["log_time"]
+        keep = [j for j, v in enumerate(r["sts"]) if v < lts[0]]
+        nk = len(keep)
+        want_x = [r["sts"][j] for j in keep] + lts
+        cv = next((cv for cv in r["curves"] if cv[0] == c["H"]), None)
+        bad = None
+        if sec["gx"] != want_x or sec["bx"] != want_x or not strictly_increasing(sec["gx"]):
+            bad = "axis is not (present short-time points below the first long-time point) + (long-time points)"
+        elif sec["gy"][:nk] != [r["g_sts"][j] for j in keep] or sec["by"][:nk] != [r["gb_sts"][j] for j in keep]:
+            bad = "short-time part is not the short-time response the object holds now"
+        elif cv is not None:
+            shift = float(dec_log(r["rb_star"]) - dec_log(cv[1]))
+            if not (all(close(a, v - shift) for a, v in zip(sec["gy"][nk:], cv[2])) and all(close(a, v - shift) for a, v in zip(sec["by"][nk:], cv[2]))):
+                dev = max(abs(a - (v - shift)) for a, v in zip(sec["gy"][nk:], cv[2]))
+                bad = (f"long-time part differs by {dev:.3g} from the radius-corrected long-time curve of the g-function object the GHE holds now"
+                       + ("" if changed else " (the curve of the first call was returned unchanged)"))
+        if bad:
+            finding(ctx, f"history-stale-after-{mut}", bad, rep)
+        # ---- correspondence: fresh object in the final state, and the model's join of the final ingredients
+        ok = True
+        if r["fresh"] is not None and r["fresh"] != sec:
+            ok = False
+        if i in mout:
+            mo = mout[i]
+            if mo.startswith("raise") or mo == "bad-arg":
+                ok = False
+            else:
+                gx, gy, bx, by, _mrb, _mh, _ = mo.split(" ")
+                gx, gy, bx, by = PL(gx), PL(gy), PL(bx), PL(by)
+                ok = ok and (gx == [Fraction(v) for v in sec["gx"]] and bx == [Fraction(v) for v in sec["bx"]] and len(gy) == len(sec["gy"])
+                             and all(close(a, b) for a, b in zip(sec["gy"], gy)) and all(close(a, b) for a, b in zip(sec["by"], by)))
+        if not ok:
+            note_broken(ctx, "history-correspondence", {"case": c, "fresh_equal": r["fresh"] is None or r["fresh"] == sec})
+        if mut != "none" and not changed:
+            ctx.count("history_unchanged_although_mutated")
+
+
 # ----------------------------------------------------------------------------- 5. finite-line-source anchor
+def large_fields(rng, thorough):
+    """Fields of more than 100 boreholes (regular shapes: few distinct distances, cheap for both sides), shallow
+    (g ~ 1-3 at the early Eskilson points, where a relative 1e-4 bites) and one deep."""
+    def grid(nx, ny, b):
+        return [(i * b, j * b) for i in range(nx) for j in range(ny)]
+
+    def ell(a, b):
+        return [(i * b, 0.0) for i in range(a)] + [(0.0, j * b) for j in range(1, a)]
+
+    def you(a, b):
+        return [(i * b, 0.0) for i in range(a)] + [(0.0, j * b) for j in range(1, a)] + [((a - 1) * b, j * b) for j in range(1, a)]
+
+    shapes = [("grid", grid(11, 10, 5.0)), ("L", ell(56, 6.0)), ("U", you(37, 5.0)), ("grid", grid(15, 10, 7.0))]
+    if thorough:
+        shapes += [("grid", grid(17, 6, 4.5)), ("L", ell(75, 5.0)), ("U", you(50, 6.0)), ("grid", grid(12, 12, 6.0)), ("line", [(i * 5.0, 0.0) for i in range(101)])]
+    out = []
+    for k, (name, coords) in enumerate(shapes):
+        H = round(rng.uniform(20.0, 40.0), 1) if k % 4 != 3 else round(rng.uniform(150.0, 350.0), 1)
+        out.append({"name": name, "coords": coords, "heights": [H], "D": [2.0, 0.0, 1.0, 4.0][k % 4], "rb": rng.choice([0.055, 0.075]),
+                    "alpha": rng.uniform(0.5e-6, 1.5e-6)})
+    return out
+
+
 DEPTHS = [0.0, 0.0, 0.1, 0.5, None, 2.0, 0.0, 1.0, None, 5.0, 0.1]   # None: uniform 1-6 m
 
 
@@ -732,11 +913,14 @@ def check_fls(ctx, fields, results, esk):
         ctx.case(("fls", f["name"], n, h, f["D"], f["rb"]), True, {"fls_field": f["name"], "n": n, "H": h, "D": f["D"], "rb": f["rb"],
                                                                       "g_last": gU[-1]} if len(ctx.samples) < 6 else None)
         dev = max(abs(a - b) for a, b in zip(gU, gF))
+        rdev = max(abs(a - b) / abs(b) for a, b in zip(gU, gF))
         lim = 1e-6 if n == 1 else 1e-4
         worst["single" if n == 1 else "multi"] = max(worst["single" if n == 1 else "multi"], dev)
         table.append({"field": f["name"], "n": n, "H": h, "max_abs_dev": dev, "max_rel_dev": max(abs(a - b) / b for a, b in zip(gU, gF))})
         rep = {"function": "calc_g_func_for_multiple_lengths(boundary='UHTR')", "field": f, "H": h, "max_abs_dev": dev}
-        if not (len(gU) == len(gF) and dev <= lim):
+        ctx.count("fls_size_over_100" if n > 100 else "fls_size_up_to_100")
+        if not (len(gU) == len(gF) and dev <= lim and rdev <= lim):   # "within 1e-4": neither absolutely nor relative to the analytical value
+            rep["max_rel_dev"] = rdev
             if n == 1:
                 finding(ctx, "fls-anchor-single", f"UHTR curve of a single borehole differs from the finite line source by {dev:.3g} (> 1e-06), H={h}", rep)
             else:
@@ -772,8 +956,8 @@ def check_fls(ctx, fields, results, esk):
                         f"UHTR curve ({n} boreholes, {f['name']}, H={h}) is {dev:.3g} from the finite-line-source superposition (> 1e-4) "
                         f"while solver='detailed' is within {dev_det:.1g}", rep)
             else:
-                finding(ctx, "fls-anchor-field", f"UHTR long-time curve differs from the finite-line-source superposition by {dev:.3g} "
-                        f"(> 0.0001; exact pairwise solver: {dev_det:.3g}), {n} boreholes, H={h}", rep)
+                finding(ctx, "fls-anchor-field", f"UHTR long-time curve differs from the finite-line-source superposition by {dev:.3g} absolute, "
+                        f"{rel:.3g} relative (> 0.0001; exact pairwise solver: {dev_det:.3g}), {n} boreholes ({f['name']}), H={h}, D={f['D']}", rep)
     ctx.extra["fls_table"] = sorted(table, key=lambda t: -t["max_abs_dev"])[:12]
     ctx.extra["fls_anchor"] = {"level": "translation_validation (differential run of the Lean Float evaluator, not a theorem)",
                                "max_abs_dev_fields": worst["multi"], "max_abs_dev_single": worst["single"],
@@ -810,6 +994,9 @@ def run_corpus(ctx):
             rc = rp["case"]
             rc["coords"] = [tuple(q) for q in rc["coords"]]
             check_real(ctx, [rc], [real_worker(rc)])
+        elif "history_case" in rp:
+            hc = rp["history_case"]
+            check_history(ctx, [hc], [history_worker(hc)])
         elif "field" in rp:
             flds.append({**rp["field"], "heights": [rp["H"]] if "H" in rp else rp["field"]["heights"]})
     ctx.count("corpus_cases", len(joins) + len(interps) + len(flds))
@@ -831,7 +1018,9 @@ def run(ctx: core.Ctx):
                 "long-time point (distinct = generator kind x branch x lengths x end points); interpolation: synthetic GFunction objects with "
                 "0..6 curves, all kinds, 1-3 successive calls, at / near / between / outside stored heights (distinct = curves x kind x position x "
                 "call number x outcome x target); real GHE objects H 20-400 m, alpha 0.3-2e-6 (distinct = H, alpha, heights, branch, pipe); "
-                "FLS anchor: distinct fields x heights. Non-trivial = every case with at least one curve / non-degenerate build")
+                "call histories on one GHE: grab, change one ingredient (g-function object replaced, compute_g_functions(), r_b table, borehole radius, "
+                "short-time response, or nothing), grab again at the same B/H; FLS anchor: distinct fields x heights incl. four fields of > 100 boreholes "
+                "(nine in thorough), threshold 1e-4 absolute and relative. Non-trivial = every case with at least one curve / non-degenerate build")
     ctx.trusted_base += [
         "translator translate/gen_gjoin.py (comparison operators of combine_sts_lts, tolerance, close_tolerance, kind ladder, required-curves table; "
         "literal statements of the transcribed functions compared with their expected text)",
@@ -871,6 +1060,11 @@ def run(ctx: core.Ctx):
     rres = core.pool_map(real_worker, rcases)
     check_real(ctx, rcases, rres)
 
+    # 4b. call histories on one object
+    n_hist = 12 if quick else 72
+    hcases = [gen_history_case(rng, k) for k in range(n_hist)]
+    check_history(ctx, hcases, core.pool_map(history_worker, hcases))
+
     # 5. finite-line-source anchor
     check_erf(ctx, rng)
     if quick:
@@ -878,7 +1072,7 @@ def run(ctx: core.Ctx):
     else:
         fields = [gen_field(rng, k, 16) for k in range(20)] + [gen_field(rng, k, 64) for k in range(1, 25)] + \
                  [gen_field(rng, k, 150) for k in range(1, 17)]
-    fields = [{**f, "coords": [tuple(p) for p in f["coords"]]} for f in corpus_fields] + fields
+    fields = [{**f, "coords": [tuple(p) for p in f["coords"]]} for f in corpus_fields] + fields + large_fields(rng, not quick)
     fres = core.pool_map(fls_worker, fields)
     check_fls(ctx, fields, fres, esk)
 
